@@ -486,11 +486,19 @@ def reciprocal(x, out=None, n=0):
 
 @basecase(np.sin)
 def sin(x, out=None, n=0):
-    return np.sin(0.5 * n * np.pi + x, out)
+    # the n-th derivative is sin, cos, -sin, -cos of the same point (adding
+    # n*pi/2 to a large x rounds the shift away)
+    out = (np.sin, np.cos)[n % 2](x, out)
+    if n % 4 >= 2:
+        out = np.negative(out, out if isinstance(out, np.ndarray) else None)
+    return out
 
 @basecase(np.cos)
 def cos(x, out=None, n=0):
-    return np.cos(0.5 * n * np.pi + x, out)
+    out = (np.cos, np.sin)[n % 2](x, out)
+    if n % 4 in (1, 2):
+        out = np.negative(out, out if isinstance(out, np.ndarray) else None)
+    return out
 
 @basecase(np.tan)
 def tan(x, out=None, n=0):
